@@ -169,7 +169,7 @@ def decodeSheet (p : Package) (path : String) (sst : List Text) (nXf nDxf : Nat)
   match (p.part? path).bind (·.xml) with
   | none => (([], [], []), [s!"sheet part {path} is missing or not well-formed"])
   | some root =>
-    let rels := relsOf p path
+    let rels : List Rel := relsOf p path
     -- child order
     let kidsNames := (root.children.filter (·.isElem)).map (fun k => str (localName k.name))
     let idxs := kidsNames.filterMap (indexIn worksheetOrder)
@@ -200,7 +200,7 @@ def decodeSheet (p : Package) (path : String) (sst : List Text) (nXf nDxf : Nat)
       let ref := (h.attr? "ref".toList).getD []
       match h.attr? "r:id".toList with
       | some rid =>
-        (match rels.find? (·.id = str rid) with
+        (match rels.find? (fun (r : Rel) => r.id = str rid) with
          | some r => (Link.mk ref true r.target.toList, ([] : List String))
          | none => (Link.mk ref true [], [s!"{path}: hyperlink {str ref} refers to relationship {str rid} which does not exist"]))
       | none => (Link.mk ref false ((h.attr? "location".toList).getD []), [])
@@ -208,7 +208,7 @@ def decodeSheet (p : Package) (path : String) (sst : List Text) (nXf nDxf : Nat)
     let ridUsers := (root.children.filter (·.isElem)).filter (fun k => (k.attr? "r:id".toList).isSome)
     let e5 := ridUsers.filterMap fun k =>
       match k.attr? "r:id".toList with
-      | some rid => if rels.any (·.id = str rid) then none else some s!"{path}: <{str k.name}> refers to relationship {str rid} which does not exist"
+      | some rid => if rels.any (fun (r : Rel) => r.id = str rid) then none else some s!"{path}: <{str k.name}> refers to relationship {str rid} which does not exist"
       | none => none
     -- differential format ids of conditional-formatting rules
     let dxfIds := (root.kids "conditionalFormatting").flatMap (fun cf => (cf.kids "cfRule").filterMap (fun r => (r.attr? "dxfId".toList).bind natOf))
@@ -280,7 +280,7 @@ def decode (p : Package) : Option BookV × List String :=
       let sheetsE := sheetEls.map fun s =>
         let name := (s.attr? "name".toList).getD []
         let state := str ((s.attr? "state".toList).getD "visible".toList)
-        match (s.attr? "r:id".toList).bind (fun rid => wrels.find? (·.id = str rid)) with
+        match (s.attr? "r:id".toList).bind (fun rid => wrels.find? (fun (r : Rel) => r.id = str rid)) with
         | none => (SheetV.mk name state [] [] [], [s!"sheet {str name}: r:id does not resolve"])
         | some r =>
           let path := resolveTarget wbPath r.target
